@@ -265,6 +265,7 @@ func doTakeSnapshot(fsm *stateMachine, index uint64, config Config) (snapshotMet
 	}
 	resp := req.Result().(fsmSnapResp)
 	defer resp.state.Release()
+	verifPointFSM(fsm, "snap.captured")
 	if resp.config.isBootstrapped() {
 		// the membership as of the snapshot index, not as of the request
 		config = resp.config
